@@ -317,7 +317,7 @@ def c06 (ms : M) (e : Event) : List String :=
     let mySeq := (fget m.f 34).getD "-"
     -- callbacks about THIS message (stash drains deliver other numbers)
     let reached := e.items.any fun i => match i with
-      | .fromApp s _ => s == mySeq
+      | .fromApp s _ => s == mySeq && !isAdminKind k      -- (FromApp is never about an administrative message: a stash drain)
       | .fromAdmin kk s => kk != "A" && s == mySeq && kk == k
       | .onLogon => k == "A"
       | _ => false
